@@ -11,6 +11,7 @@ import (
 	"os"
 	"path"
 	"strconv"
+	"strings"
 	"time"
 
 	"github.com/ava-labs/avalanchego/ids"
@@ -65,16 +66,53 @@ func GetPort(uri string) (string, error) {
 	return purl.Port(), err
 }
 
+// oneToken is the number of base units in one token (10^consts.Decimals).
+var oneToken = func() uint64 {
+	unit := uint64(1)
+	for i := 0; i < consts.Decimals; i++ {
+		unit *= 10
+	}
+	return unit
+}()
+
+// FormatBalance formats [bal] base units as a decimal token amount with
+// exactly [consts.Decimals] fractional digits.
 func FormatBalance(bal uint64) string {
-	return strconv.FormatFloat(float64(bal)/math.Pow10(int(consts.Decimals)), 'f', int(consts.Decimals), 64)
+	return fmt.Sprintf("%d.%0*d", bal/oneToken, consts.Decimals, bal%oneToken)
 }
 
+// ParseBalance parses a decimal token amount with at most [consts.Decimals]
+// fractional digits into base units. It only uses integer arithmetic, so the
+// result is exact for every representable balance.
 func ParseBalance(bal string) (uint64, error) {
-	f, err := strconv.ParseFloat(bal, 64)
-	if err != nil {
-		return 0, err
+	whole, frac, _ := strings.Cut(bal, ".")
+	if len(whole) == 0 && len(frac) == 0 {
+		return 0, fmt.Errorf("parsing balance %q: %w", bal, strconv.ErrSyntax)
 	}
-	return uint64(f * math.Pow10(int(consts.Decimals))), nil
+	if len(frac) > consts.Decimals {
+		return 0, fmt.Errorf("parsing balance %q: more than %d decimal places: %w", bal, consts.Decimals, strconv.ErrRange)
+	}
+	var (
+		units, fracUnits uint64
+		err              error
+	)
+	if len(whole) > 0 {
+		units, err = strconv.ParseUint(whole, 10, 64)
+		if err != nil {
+			return 0, err
+		}
+	}
+	if len(frac) > 0 {
+		// right-pad to [consts.Decimals] digits to get the number of base units
+		fracUnits, err = strconv.ParseUint(frac+strings.Repeat("0", consts.Decimals-len(frac)), 10, 64)
+		if err != nil {
+			return 0, err
+		}
+	}
+	if units > (math.MaxUint64-fracUnits)/oneToken {
+		return 0, fmt.Errorf("parsing balance %q: %w", bal, strconv.ErrRange)
+	}
+	return units*oneToken + fracUnits, nil
 }
 
 func Repeat[T any](v T, n int) []T {
